@@ -16,9 +16,6 @@ Lemma path_eqb_eq : forall p q, path_eqb p q = true <-> p = q.
 Proof. apply list_eqb_eq. apply str_eqb_eq. Qed.
 Lemma path_eqb_refl : forall p, path_eqb p p = true.
 Proof. intro p. apply path_eqb_eq. reflexivity. Qed.
-Lemma lines_eqb_eq : forall a b, lines_eqb a b = true <-> a = b.
-Proof. apply list_eqb_eq. apply str_eqb_eq. Qed.
-
 Lemma codes_eqb_eq : forall a b, codes_eqb a b = true <-> a = b.
 Proof. apply list_eqb_eq. intros a b. apply N.eqb_eq. Qed.
 
@@ -72,79 +69,54 @@ Proof.
   - intro H. exists p. split; [exact H | apply path_eqb_refl].
 Qed.
 
-Lemma In_paths_py : forall {C} p (t : list (path * C)),
-  In p (paths_of (py_files t)) <-> is_py p = true /\ exists c, In (p, c) t.
+Lemma mem_path_lookup : forall {C} p (t : list (path * C)),
+  mem_path p (paths_of t) = false <-> tlookup p t = None.
 Proof.
-  intros C p t. unfold paths_of, py_files. rewrite in_map_iff. split.
-  - intros [[q c] [E H]]. simpl in E. subst q. apply filter_In in H. destruct H as [H1 H2].
-    split; [exact H2 | exists c; exact H1].
-  - intros [Hpy [c H]]. exists (p, c). split; [reflexivity | apply filter_In; split; assumption].
+  intros C p t. induction t as [|[q c] t IH]; simpl; [tauto|].
+  unfold mem_path in *. simpl. destruct (path_eqb p q); simpl; [split; discriminate | exact IH].
 Qed.
 
-(* ---------- what "no differences" gives, unconditionally ---------- *)
-Lemma show_diffs_false_common : forall old new,
-  show_diffs old new = false ->
-  forall p c c', In (p, c) new -> is_py p = true -> tlookup p old = Some c' -> read_lines c' = read_lines c.
+Lemma differing_nil : forall {C} (same : C -> C -> bool) old new,
+  show_diffs_g same old new = false ->
+  filter (file_differs same old) new = [] /\ old_only old new = [].
 Proof.
-  intros old new H p c c' Hin Hpy Hold.
-  unfold show_diffs, show_diffs_g in H.
-  assert (F : file_differs text_same old (p, c) = false).
-  { destruct (file_differs text_same old (p, c)) eqn:E; [|reflexivity].
-    assert (X : existsb (file_differs text_same old) new = true) by (apply existsb_exists; eexists; eauto).
-    congruence. }
-  unfold file_differs in F. simpl in F. rewrite Hpy, Hold in F. simpl in F.
-  apply negb_false_iff in F. apply lines_eqb_eq in F. exact F.
+  intros C same old new H. unfold show_diffs_g, differing_g in H.
+  destruct (map fst (filter (file_differs same old) new) ++ map fst (old_only old new)) eqn:E; [|discriminate].
+  apply app_eq_nil in E. destruct E as [E1 E2]. apply map_eq_nil in E1. apply map_eq_nil in E2. auto.
 Qed.
 
-(* an up-to-date tree is never reported as different *)
-Lemma show_diffs_complete : forall old new,
-  (forall p, tlookup p old = tlookup p new) -> wf_tree new = true -> show_diffs old new = false.
+Lemma filter_nil_In : forall {A} (f : A -> bool) l, filter f l = [] -> forall x, In x l -> f x = false.
 Proof.
-  intros old new Heq Hwf. unfold show_diffs, show_diffs_g.
-  destruct (existsb (file_differs text_same old) new) eqn:E; [|reflexivity].
-  apply existsb_exists in E. destruct E as [[p c] [Hin F]].
-  unfold file_differs in F. simpl in F. apply andb_true_iff in F. destruct F as [_ F].
-  rewrite Heq in F.
-  assert (L : tlookup p new = Some c).
-  { clear -Hin Hwf. unfold wf_tree, paths_of in Hwf. induction new as [|[q c'] t IH]; [contradiction|].
-    simpl in Hwf. apply andb_true_iff in Hwf. destruct Hwf as [Hn Hw]. simpl.
-    destruct Hin as [Hin|Hin].
-    - inversion Hin; subst. rewrite path_eqb_refl. reflexivity.
-    - destruct (path_eqb p q) eqn:E.
-      + apply path_eqb_eq in E. subst q. apply negb_true_iff in Hn.
-        assert (X : mem_path p (map fst t) = true) by (apply mem_path_In; apply in_map_iff; exists (p, c); auto).
-        congruence.
-      + apply IH; assumption. }
-  rewrite L in F. apply negb_true_iff in F.
-  assert (X : text_same c c = true) by (apply lines_eqb_eq; reflexivity). congruence.
+  intros A f l H x Hx. destruct (f x) eqn:E; [|reflexivity].
+  assert (X : In x (filter f l)) by (apply filter_In; auto). rewrite H in X. contradiction.
 Qed.
 
-(* ---------- the guarded soundness theorem ---------- *)
-Definition guard_diff (old new : tree) : bool := guard_F09b old new && guard_F09f old new && guard_F09g old new.
-
-Lemma diff_sound_py : forall old new,
-  guard_F09b old new = true -> guard_F09f old new = true -> show_diffs old new = false ->
-  forall p, is_py p = true -> tlookup p old = tlookup p new.
+(* FULL (no guard since the fix of F09b/F09f): no differences reported => the *.py files of the existing
+   tree are exactly the *.py files that would be generated now, byte for byte *)
+Theorem diff_sound_py : forall old new,
+  show_diffs old new = false -> forall p, is_py p = true -> tlookup p old = tlookup p new.
 Proof.
-  intros old new Gb Gf H p Hpy.
-  unfold guard_F09b in Gb. apply andb_true_iff in Gb. destruct Gb as [Gb1 Gb2].
-  rewrite forallb_forall in Gb1, Gb2.
+  intros old new H p Hpy. apply differing_nil in H. destruct H as [Hn Ho].
   destruct (tlookup p new) as [c|] eqn:En.
-  - pose proof (tlookup_In _ _ _ En) as Hin.
-    assert (Hp : In p (paths_of (py_files new))) by (apply In_paths_py; split; [exact Hpy | exists c; exact Hin]).
-    apply Gb1 in Hp. apply mem_path_In in Hp. apply In_paths_py in Hp. destruct Hp as [_ [c0 Hc0]].
-    destruct (In_tlookup _ _ _ Hc0) as [c' Eo]. rewrite Eo. f_equal.
-    pose proof (show_diffs_false_common _ _ H _ _ _ Hin Hpy Eo) as Hl.
-    unfold guard_F09f in Gf. rewrite forallb_forall in Gf. specialize (Gf _ Hin). simpl in Gf.
-    rewrite Eo, Hpy in Gf. simpl in Gf.
-    destruct (str_eqb c' c) eqn:Es; [apply str_eqb_eq in Es; exact Es|].
-    simpl in Gf. apply negb_true_iff in Gf. unfold text_same in Gf.
-    assert (X : lines_eqb (read_lines c') (read_lines c) = true) by (apply lines_eqb_eq; exact Hl). congruence.
+  - pose proof (filter_nil_In _ _ Hn _ (tlookup_In _ _ _ En)) as F.
+    unfold file_differs in F. simpl in F. rewrite Hpy in F. simpl in F.
+    destruct (tlookup p old) as [c'|]; [|discriminate].
+    apply negb_false_iff in F. apply str_eqb_eq in F. subst. reflexivity.
   - destruct (tlookup p old) as [c'|] eqn:Eo; [|reflexivity]. exfalso.
-    pose proof (tlookup_In _ _ _ Eo) as Hin.
-    assert (Hp : In p (paths_of (py_files old))) by (apply In_paths_py; split; [exact Hpy | exists c'; exact Hin]).
-    apply Gb2 in Hp. apply mem_path_In in Hp. apply In_paths_py in Hp. destruct Hp as [_ [c0 Hc0]].
-    destruct (In_tlookup _ _ _ Hc0) as [c1 E1]. congruence.
+    pose proof (filter_nil_In _ _ Ho _ (tlookup_In _ _ _ Eo)) as F. simpl in F. rewrite Hpy in F. simpl in F.
+    apply negb_false_iff in F. apply mem_path_lookup in En. congruence.
+Qed.
+
+Theorem diff_sound_py_files : forall old new,
+  show_diffs old new = false -> forall p, tlookup p (py_files old) = tlookup p (py_files new).
+Proof.
+  intros old new H p.
+  assert (L : forall (t : tree) q, tlookup q (py_files t) = if is_py q then tlookup q t else None).
+  { induction t as [|[r c] t IH]; intro q; simpl; [destruct (is_py q); reflexivity|].
+    destruct (is_py r) eqn:Er; simpl.
+    - destruct (path_eqb q r) eqn:E; [apply path_eqb_eq in E; subst; rewrite Er; reflexivity | apply IH].
+    - rewrite IH. destruct (path_eqb q r) eqn:E; [apply path_eqb_eq in E; subst; rewrite Er; reflexivity | reflexivity]. }
+  rewrite !L. destruct (is_py p) eqn:Hpy; [apply diff_sound_py; assumption | reflexivity].
 Qed.
 
 Lemma sub_nonpy_lookup : forall a b, sub_nonpy a b = true ->
@@ -155,12 +127,11 @@ Proof.
   destruct (tlookup p b) as [c'|]; [|discriminate]. apply str_eqb_eq in H. subst. reflexivity.
 Qed.
 
-(* FULL conclusion under the guard: the existing tree IS the new tree (as finite maps path -> bytes) *)
+(* whole trees under the one remaining guard (non-*.py files are still not compared: F09g) *)
 Theorem diff_sound_partial : forall old new,
-  guard_diff old new = true -> show_diffs old new = false -> forall p, tlookup p old = tlookup p new.
+  guard_F09g old new = true -> show_diffs old new = false -> forall p, tlookup p old = tlookup p new.
 Proof.
-  intros old new G H p. unfold guard_diff in G.
-  apply andb_true_iff in G. destruct G as [G Gg]. apply andb_true_iff in G. destruct G as [Gb Gf].
+  intros old new Gg H p.
   destruct (is_py p) eqn:Hpy; [apply diff_sound_py; assumption|].
   unfold guard_F09g in Gg. apply andb_true_iff in Gg. destruct Gg as [G1 G2].
   destruct (tlookup p old) as [c|] eqn:Eo.
@@ -169,21 +140,42 @@ Proof.
     pose proof (sub_nonpy_lookup _ _ G2 _ _ Hpy En). congruence.
 Qed.
 
-(* the statement of the design: equality of the *.py parts, under the two guards that concern them *)
-Theorem diff_sound_py_partial : forall old new,
-  guard_F09b old new = true -> guard_F09f old new = true -> show_diffs old new = false ->
-  forall p, tlookup p (py_files old) = tlookup p (py_files new).
+(* an up-to-date tree is never reported as different *)
+Lemma show_diffs_complete : forall old new,
+  (forall p, tlookup p old = tlookup p new) -> wf_tree new = true -> show_diffs old new = false.
 Proof.
-  intros old new Gb Gf H p.
-  assert (L : forall (t : tree) q, tlookup q (py_files t) = if is_py q then tlookup q t else None).
-  { induction t as [|[r c] t IH]; intro q; simpl; [destruct (is_py q); reflexivity|].
-    destruct (is_py r) eqn:Er; simpl.
-    - destruct (path_eqb q r) eqn:E; [apply path_eqb_eq in E; subst; rewrite Er; reflexivity | apply IH].
-    - rewrite IH. destruct (path_eqb q r) eqn:E; [apply path_eqb_eq in E; subst; rewrite Er; reflexivity | reflexivity]. }
-  rewrite !L. destruct (is_py p) eqn:Hpy; [apply diff_sound_py; assumption | reflexivity].
+  intros old new Heq Hwf. unfold show_diffs, show_diffs_g, differing_g.
+  assert (F1 : filter (file_differs str_eqb old) new = []).
+  { assert (A : forall l, (forall x, In x l -> In x new) -> filter (file_differs str_eqb old) l = []).
+    { induction l as [|[p c] l IH]; intro Hsub; [reflexivity|]. simpl.
+      assert (L : tlookup p new = Some c).
+      { assert (Hin : In (p, c) new) by (apply Hsub; left; reflexivity).
+        clear -Hin Hwf. unfold wf_tree, paths_of in Hwf. induction new as [|[q c'] t IHt]; [contradiction|].
+        simpl in Hwf. apply andb_true_iff in Hwf. destruct Hwf as [Hn Hw]. simpl.
+        destruct Hin as [Hin|Hin].
+        - inversion Hin; subst. rewrite path_eqb_refl. reflexivity.
+        - destruct (path_eqb p q) eqn:E.
+          + apply path_eqb_eq in E. subst q. apply negb_true_iff in Hn.
+            assert (X : mem_path p (map fst t) = true) by (apply mem_path_In; apply in_map_iff; exists (p, c); auto).
+            congruence.
+          + apply IHt; assumption. }
+      unfold file_differs at 1. simpl. rewrite Heq, L, str_eqb_refl. simpl. rewrite andb_false_r.
+      apply IH. intros x Hx. apply Hsub. right. exact Hx. }
+    apply A. auto. }
+  assert (F2 : old_only old new = []).
+  { unfold old_only.
+    assert (A : forall l, (forall x, In x l -> In x old) ->
+                filter (fun pc : path * str => is_py (fst pc) && negb (mem_path (fst pc) (paths_of new))) l = []).
+    { induction l as [|[p c] l IH]; intro Hsub; [reflexivity|]. simpl.
+      destruct (In_tlookup _ _ _ (Hsub _ (or_introl eq_refl))) as [c' Ec]. rewrite Heq in Ec.
+      destruct (mem_path p (paths_of new)) eqn:Em.
+      - simpl. rewrite andb_false_r. apply IH. intros x Hx. apply Hsub. right. exact Hx.
+      - apply mem_path_lookup in Em. congruence. }
+    apply A. auto. }
+  rewrite F1, F2. reflexivity.
 Qed.
 
-(* ---------- refutations of the unguarded statement ---------- *)
+(* ---------- regression: the witnesses of the fixed F09b / F09f are now reported ---------- *)
 Definition p_client : path := [[99;108;105;101;110;116;46;112;121]].          (* client.py *)
 Definition p_models_a : path := [[109;111;100;101;108;115]; [97;46;112;121]].  (* models/a.py *)
 Definition p_stale : path := [[109;111;100;101;108;115]; [115;46;112;121]].    (* models/s.py *)
@@ -194,28 +186,24 @@ Definition t_a1_nonl : str := [97;32;61;32;49].       (* "a = 1" *)
 
 Definition old_F09b : tree := [(p_client, t_a1); (p_stale, t_a1)].
 Definition new_F09b : tree := [(p_client, t_a1); (p_models_a, t_a1)].
-Lemma refuted_F09b :
-  guard_F09b old_F09b new_F09b = false /\ guard_F09f old_F09b new_F09b = true /\ guard_F09g old_F09b new_F09b = true /\
-  show_diffs old_F09b new_F09b = false /\ tlookup p_models_a (py_files old_F09b) <> tlookup p_models_a (py_files new_F09b).
-Proof. repeat split; try (vm_compute; reflexivity). vm_compute. discriminate. Qed.
-
 Definition old_F09f : tree := [(p_client, t_a1_crlf); (p_models_a, t_a1_nonl)].
 Definition new_F09f : tree := [(p_client, t_a1); (p_models_a, t_a1)].
-Lemma refuted_F09f :
-  guard_F09b old_F09f new_F09f = true /\ guard_F09f old_F09f new_F09f = false /\ guard_F09g old_F09f new_F09f = true /\
-  show_diffs old_F09f new_F09f = false /\ tlookup p_client (py_files old_F09f) <> tlookup p_client (py_files new_F09f).
-Proof. repeat split; try (vm_compute; reflexivity). vm_compute. discriminate. Qed.
+Lemma regression_F09b_F09f :
+  show_diffs old_F09b new_F09b = true /\ differing_g str_eqb old_F09b new_F09b = [p_models_a; p_stale] /\
+  show_diffs [(p_client, t_a1)] new_F09b = true /\ show_diffs old_F09b [(p_client, t_a1)] = true /\
+  show_diffs old_F09f new_F09f = true /\ differing_g str_eqb old_F09f new_F09f = [p_client; p_models_a].
+Proof. repeat split; vm_compute; reflexivity. Qed.
 
 Definition old_F09g : tree := [(p_client, t_a1); (p_typed, t_a1)].
 Definition new_F09g : tree := [(p_client, t_a1); (p_typed, [])].
 Lemma refuted_F09g :
-  guard_F09b old_F09g new_F09g = true /\ guard_F09f old_F09g new_F09g = true /\ guard_F09g old_F09g new_F09g = false /\
+  guard_F09g old_F09g new_F09g = false /\
   show_diffs old_F09g new_F09g = false /\ tlookup p_typed old_F09g <> tlookup p_typed new_F09g.
 Proof. repeat split; try (vm_compute; reflexivity). vm_compute. discriminate. Qed.
 
 Lemma guard_diff_nonvacuous :
-  guard_diff new_F09b new_F09b = true /\ show_diffs new_F09b new_F09b = false /\
-  guard_diff old_F09b [(p_client, t_a1 ++ t_a1); (p_stale, t_a1)] = true /\
+  guard_F09g new_F09b new_F09b = true /\ show_diffs new_F09b new_F09b = false /\
+  guard_F09g old_F09b [(p_client, t_a1 ++ t_a1); (p_stale, t_a1)] = true /\
   show_diffs old_F09b [(p_client, t_a1 ++ t_a1); (p_stale, t_a1)] = true.
 Proof. repeat split; vm_compute; reflexivity. Qed.
 
@@ -313,7 +301,16 @@ Section DedupFacts.
         unfold file_differs at 1. simpl. rewrite (wf_lookup_self t p c Hwf (Hsub _ (or_introl eq_refl))).
         rewrite content_eqb_refl. simpl. rewrite andb_false_r. apply IH. intros x Hx. apply Hsub. right. exact Hx. }
       apply A. auto. }
-    rewrite F. reflexivity.
+    assert (G : old_only t t = []).
+    { unfold old_only.
+      assert (A : forall l, (forall x, In x l -> In x t) ->
+                  filter (fun pc : path * content => is_py (fst pc) && negb (mem_path (fst pc) (paths_of t))) l = []).
+      { induction l as [|[p c] l IH]; intro Hsub; [reflexivity|]. simpl.
+        assert (X : mem_path p (paths_of t) = true).
+        { apply mem_path_In. unfold paths_of. apply in_map_iff. exists (p, c). split; [reflexivity | apply Hsub; left; reflexivity]. }
+        rewrite X. simpl. rewrite andb_false_r. apply IH. intros x Hx. apply Hsub. right. exact Hx. }
+      apply A. auto. }
+    rewrite F, G. reflexivity.
   Qed.
 
   Theorem rerun_partial : forall g found,
@@ -335,11 +332,42 @@ Section DedupFacts.
     intros g existing p c c' Hin Hpy Hold Hne. unfold run_noforce.
     destruct (rerun_differing san g existing) eqn:E; [|reflexivity]. exfalso.
     unfold rerun_differing in E. apply app_eq_nil in E. destruct E as [E _].
-    unfold differing_g in E. apply map_eq_nil in E.
+    unfold differing_g in E. apply app_eq_nil in E. destruct E as [E _]. apply map_eq_nil in E.
     assert (X : In (p, c) (filter (file_differs content_eqb (under (g_out g) existing)) (under (g_out g) (tree_temp san g)))).
     { apply filter_In. split; [exact Hin|]. unfold file_differs. simpl. rewrite Hpy, Hold. simpl.
       apply negb_true_iff. destruct (content_eqb c' c) eqn:Ec; [|reflexivity].
       apply content_eqb_eq in Ec. contradiction. }
+    rewrite E in X. contradiction.
+  Qed.
+
+  (* since the fix of F09b: a *.py file that would be generated but is missing from the existing output, or a
+     stale *.py file in the existing output, makes the non-force run fail as well *)
+  Theorem rerun_detects_missing : forall g existing p c,
+    In (p, c) (under (g_out g) (tree_temp san g)) -> is_py p = true ->
+    tlookup p (under (g_out g) existing) = None ->
+    fst (run_noforce san g existing) = RDifferences.
+  Proof.
+    intros g existing p c Hin Hpy Hold. unfold run_noforce.
+    destruct (rerun_differing san g existing) eqn:E; [|reflexivity]. exfalso.
+    unfold rerun_differing in E. apply app_eq_nil in E. destruct E as [E _].
+    unfold differing_g in E. apply app_eq_nil in E. destruct E as [E _]. apply map_eq_nil in E.
+    assert (X : In (p, c) (filter (file_differs content_eqb (under (g_out g) existing)) (under (g_out g) (tree_temp san g)))).
+    { apply filter_In. split; [exact Hin|]. unfold file_differs. simpl. rewrite Hpy, Hold. reflexivity. }
+    rewrite E in X. contradiction.
+  Qed.
+
+  Theorem rerun_detects_stale : forall g existing p c,
+    In (p, c) (under (g_out g) existing) -> is_py p = true ->
+    tlookup p (under (g_out g) (tree_temp san g)) = None ->
+    fst (run_noforce san g existing) = RDifferences.
+  Proof.
+    intros g existing p c Hin Hpy Hnew. unfold run_noforce.
+    destruct (rerun_differing san g existing) eqn:E; [|reflexivity]. exfalso.
+    unfold rerun_differing in E. apply app_eq_nil in E. destruct E as [E _].
+    unfold differing_g in E. apply app_eq_nil in E. destruct E as [_ E]. apply map_eq_nil in E.
+    assert (X : In (p, c) (old_only (under (g_out g) existing) (under (g_out g) (tree_temp san g)))).
+    { unfold old_only. apply filter_In. split; [exact Hin|]. simpl. rewrite Hpy. simpl.
+      apply negb_true_iff. apply mem_path_lookup. exact Hnew. }
     rewrite E in X. contradiction.
   Qed.
 End DedupFacts.
